@@ -22,6 +22,11 @@ def run_mc(ctx, pid, depth):
     ctx.add_tlc(res, 'MC_GroupSession(depth=%d)' % depth)
     if res['violated']:
         ctx.violation(pid + '.spec.group.' + res['violated'], 'the GroupSession specification violates %s: %s' % (res['violated'], res['error_trace'][:1200]))
+    # ... and without a depth bound: the finite quotient under ViewCore (the last event's name instead of the whole history) is explored completely
+    alld = tlc.must(tlc.run('GroupSession', 'SPECIFICATION SpecAll\nVIEW ViewCore\nCONSTANTS\n  MaxDepth = 0\n%sCHECK_DEADLOCK FALSE\n' % INV, ctx.scratch, timeout=1800), 'GroupSession.SpecAll')
+    ctx.add_tlc(alld, 'MC_GroupSession(histories of any length, VIEW ViewCore)')
+    if alld['violated']:
+        ctx.violation(pid + '.spec.group.' + alld['violated'], 'the GroupSession specification violates %s (unbounded histories): %s' % (alld['violated'], alld['error_trace'][:1200]))
     for spec, want, part in (('SpecStale', 'UsesCurrentSettings', 'recompute_with_the_dictionary_of_fit_time'), ('SpecModelsOnly', 'Mirror', 'recompute_updates_the_models_only')):
         neg = tlc.must(tlc.run('GroupSession', 'SPECIFICATION %s\nVIEW View\n' % spec + base, ctx.scratch, timeout=600), 'GroupSession.' + spec)
         ctx.parts.append({'part': 'negative_control.group.' + part, 'violates': neg['violated']})
